@@ -116,6 +116,25 @@ def check_twin(sc, a, active):
     return None
 
 
+def check_twin_inplace(sc, a):
+    """the twin obtained by editing a deep copy of an already simulated snowpack in place (every layer's thickness and correlation length
+    times a) is the twin: same result as the one built from scratch with the scaled numbers"""
+    import copy
+    from smrt import make_model, sensor_list
+    sp, _ = scenes.build(sc)
+    m = make_model(sc["emmodel"], "dort", rtsolver_options=dict(n_max_stream=sc["nmax"]))
+    m.run(sensor_list.passive(sc["frequency"], [20., 40.]), sp)                      # the original is simulated first
+    tw = copy.deepcopy(sp)
+    for lay in tw.layers:
+        lay.thickness = lay.thickness * a
+        lay.microstructure.corr_length = lay.microstructure.corr_length * a
+    got = np.asarray(m.run(sensor_list.passive(sc["frequency"] / a, [20., 40.]), tw).data.values)
+    fresh, _ = scenes.build(scaled(sc, a))
+    want = np.asarray(m.run(sensor_list.passive(sc["frequency"] / a, [20., 40.]), fresh).data.values)
+    dev = float(np.abs(got - want).max())
+    return ("twin-edited-in-place", dev, "<= 1e-9 K") if not dev <= 1e-9 else None
+
+
 def check_invariants(sc, a, em):
     e1, e2 = emmodel_invariants(sc, em), emmodel_invariants(scaled(sc, a), em)
     m = np.isfinite(e1) & np.isfinite(e2)
@@ -185,6 +204,46 @@ def oracle(ctx, hints, effort):
         if r:
             key = f"{r[0]}:{em}"
             findings.setdefault(key, Finding(key, f"scaled twin (a={a:.3f}) differs: {r[0]}", {"kind": "invariants", "scene": sc, "a": a, "em": em}, r[1], r[2]))
+    for it in range(2 if effort == "routine" else 8):
+        sc = const_scene(rng, "exponential", max_layers=3)
+        sc["substrate"] = dict(kind="flat", T=265.0, eps=[6.0, 0.5])
+        sc["emmodel"], sc["nmax"] = "iba", 16
+        a = float(rng.choice([0.5, 2.0, 4.0]))
+        try:
+            evals += 3
+            r = check_twin_inplace(sc, a)
+        except AssertionError:
+            continue
+        if r:
+            findings.setdefault(r[0], Finding(r[0], f"a deep copy of a simulated snowpack scaled in place (a={a}) differs from the twin built from scratch",
+                                              {"kind": "inplace", "scene": sc, "a": a}, r[1], r[2]))
+    # frequencies given as integers, every specular substrate in turn (the twin's frequency f / a is a float anyway)
+    for it in range(5 if effort == "routine" else 15):
+        sc = const_scene(rng, "exponential", max_layers=2)
+        kind = scenes.SPECULAR_SUBSTRATES[it % len(scenes.SPECULAR_SUBSTRATES)]
+        sc["frequency"] = float(rng.choice([10e9, 19e9, 37e9]))
+        sub = scenes.random_scene(rng, nlayer=1, substrate=kind, frequency=sc["frequency"])["substrate"]
+        if kind == "reflector":
+            sub["kind"] = "flat"; sub.pop("params", None)
+        sub["eps"] = [sub["eps"][0], max(sub["eps"][1], 0.1)]
+        sc["substrate"] = sub
+        sc["thickness"] = [round(float(v), 3) for v in rng.uniform(0.05, 0.4, len(sc["thickness"]))]
+        sc["emmodel"], sc["nmax"], sc["int_frequency"] = "iba", 16, True
+        a = float(rng.choice([0.5, 2.0]))
+        try:
+            evals += 2
+            r = check_twin(sc, a, False)
+        except AssertionError:
+            continue
+        except Exception as e:  # noqa
+            from smrt.core.error import SMRTError
+            if isinstance(e, (SMRTError, Warning)):
+                continue
+            raise
+        if r:
+            key = f"{r[0]}:int-frequency:{kind}"
+            findings.setdefault(key, Finding(key, f"scaled twin (a={a}) of a scene whose frequency is given as an integer differs: {r[0]}",
+                                             {"scene": sc, "a": a, "active": False}, r[1], r[2]))
     rough = None
     for it in range(10 if effort == "routine" else 40):
         active = it % 4 >= 2
@@ -247,6 +306,9 @@ def oracle(ctx, hints, effort):
 
 
 def replay(inp, rp=None):
+    if inp.get("kind") == "inplace":
+        r = check_twin_inplace(inp["scene"], inp["a"])
+        return Finding("?", r[0], inp, r[1], r[2]) if r else None
     if inp.get("kind") == "invariants":
         r = check_invariants(inp["scene"], inp["a"], inp["em"])
         return Finding("?", r[0], inp, r[1], r[2]) if r else None
